@@ -3,7 +3,7 @@ import os, re, subprocess, hashlib, shutil, glob
 
 ID = 'C10'
 PROFILES = ['debug']
-THEOREMS = []          # filled in at the end of the file (names pinned in Properties/C10.v)
+THEOREMS = ['C10_dump_is_spec', 'C10_dump_read', 'C10_catalog_keys', 'C10_root_node_keys', 'C10_inner_node_keys', 'C10_page_keys', 'C10_template_keys', 'C10_type_names', 'C10_kids_indirect', 'C10_kid_alternatives', 'C10_recursion_by_name', 'C10_parent_checks', 'C10_rectangles', 'C10_iso_name_lists', 'C10_optional_entries', 'C10_predicates', 'C10_no_pinned_predicates', 'C10_shape']
 ROOT = os.path.dirname(os.path.dirname(os.path.abspath(__file__)))
 
 SRC_FILES = ['catalog.rs', 'page_tree.rs', 'page.rs', 'common_data_structures.rs', 'name_tree.rs', 'number_tree.rs']
@@ -939,7 +939,7 @@ def gen_doc(rng, max_depth=4, max_fan=4, max_objs=60, p_opt=0.15, p_cat=0.2, pag
                     break
                 budget[0] -= 1
                 r = rng.random()
-                ck = 'node' if (r < 0.35 and depth + 1 < max_depth) else ('template' if r > 0.9 else 'page')
+                ck = 'node' if (r < 0.5 and depth + 1 < max_depth) else ('template' if r > 0.9 else 'page')
                 cid = doc.alloc()
                 rec['kids'].append(cid)
                 build(cid, ck, nid, depth + 1)
@@ -1182,3 +1182,126 @@ def cases(tier, rng):
     out += sub_cases(tier, rng)
     out += any_cases(tier, rng)
     return out
+
+
+# ====================================================================== oracle, evidence
+RULE = ('random page trees (depth <= 4, fan-out <= 4, <= 60 objects; root node, inner nodes, pages, templates as indirect objects, '
+        '/Parent on every non-root; a random subset of the 30 optional catalog entries and 31 optional page/template entries with '
+        'conforming values of the declared kinds, direct or behind a reference; keys the specification does not mention) and EVERY '
+        'single-rule mutation at EVERY position of a subset of them (drop each required key, add the forbidden /Parent, /Type not a '
+        'name / unlisted / another kind, /Count not an integer, /Kids not an array, each kid embedded directly / replaced by an '
+        'integer / by a reference to a non-kid, /Parent not a reference, and for each optional entry present every bad value of its '
+        'kind: wrong primitive type, unlisted name, rectangle of 0/3/5 or non-numeric members, 15 malformed dates, 13 malformed '
+        'name/number trees, required-indirect given directly); every sub-check on its own (sub:<path>): exhaustive one-character '
+        'edits of two full date strings, 1400 tree dictionaries x 3 tree positions, all ISO names x 3 name lists + near misses, '
+        'rectangles of 0..6 members; a malformed stream (random edits, deletions, cross links, self references) with no '
+        'expectation.  non-trivial = a conforming document with >= 2 indirect objects, any mutated document, any sub-check case '
+        'whose object is not null')
+TRUSTED = ['coq/gen/Shipped.v is regenerated on every run by props/c10.py regen() from what catalog_type(&mut tctx) constructs '
+           '(harness/src/bin/c10dump.rs + harness/src/tcspec.rs Printer); predicates (trait objects) are identified by their '
+           'behaviour on ~1600 probe objects: a ChoicePred holding a name that occurs in none of the six source files, or a '
+           'predicate differing from coq/Model/ShippedPreds.v only outside the probe set, would be mis-identified',
+           'coq/Model/TypeCheck.v, coq/Spec/Conforms.v (contributor atc): the checker model and the declarative semantics',
+           'coq/Model/ShippedPreds.v: hand transcription of the date / name-tree / number-tree predicates, validated by the sub: cases']
+ASSUMPTIONS = ['the object context is finite and given (loading is C03/C04)',
+               'spec= is the 64-step unfolding of the declarative semantics: exact for the generated documents (chains < 40)']
+KF_ANY = 'C10-any-typed-entries-unchecked'
+KF_KID = 'C10-direct-kid-accepted'
+KF_MEMO = 'C10-memo-ignores-predicate-and-indirection'
+KF_ALT = 'C10-examined-alternative-rejects-conforming'
+
+
+def _verdict(obs):
+    return obs.split(' spec=')[0]
+
+
+def oracle(case, obs, prof):
+    tag = case.split(' ', 1)[0]
+    v = _verdict(obs)
+    if v not in ('accept',) and not v.startswith('reject '):
+        return 'the checker did not reach a verdict on the shipped specification: "%s"' % obs
+    if tag == 'ok':
+        return None if v == 'accept' else 'a conforming catalog was rejected (%s)' % v
+    if tag.startswith('bad:'):
+        return None if v.startswith('reject') else 'a catalog violating one rule (%s) was accepted' % tag[4:]
+    if tag.startswith('sub:'):
+        exp = tag.split(':')[2]
+        if exp == 'ok':
+            return None if v == 'accept' else 'a conforming value was rejected by the sub-check %s (%s)' % (tag.split(':')[1], v)
+        return None if v.startswith('reject') else 'a non-conforming value was accepted by the sub-check %s' % tag.split(':')[1]
+    return None
+
+
+def _mut(tag):
+    return re.sub(r'-\d+$', '', tag[4:].split('@')[0])
+
+
+def _values(case):
+    """multiset of the texts of all sub-objects of the case (context + root)."""
+    _, ctx, root = case.split(' ')
+    cnt = {}
+
+    def walk(o):
+        t = show(o)
+        cnt[t] = cnt.get(t, 0) + 1
+        if o[0] == 'A':
+            for x in o[1]:
+                walk(x)
+        elif o[0] in 'DS':
+            for x in o[1].values():
+                walk(x)
+    if ctx != '-':
+        for part in ctx.split(';'):
+            walk(parse_obj(part.split('=', 1)[1]))
+    walk(parse_obj(root))
+    return cnt
+
+
+def known_class(kid, case, obs, prof):
+    tag = case.split(' ', 1)[0]
+    v = _verdict(obs)
+    if tag.startswith('bad:') and v == 'accept':
+        m = _mut(tag)
+        any_typed = m in ('parent-direct-dict', 'parent-array', 'parent-int') or m.startswith('namedict-tree-') or \
+            m.startswith('numtree-tree-')
+        if kid == KF_ANY:
+            return any_typed
+        if kid == KF_KID:
+            return m == 'kid-direct'
+        if kid == KF_MEMO:
+            # the memo of examined (object, check) pairs compares checks by type only: needs a value occurring twice
+            return not any_typed and m != 'kid-direct' and any(n >= 2 for n in _values(case).values())
+    if tag.startswith('sub:') and v == 'accept' and kid == KF_ANY:
+        # the name dictionary on its own: its entries are the Any-typed name trees
+        return tag.split(':')[1] == hk('Names') and tag.split(':')[2] == 'bad'
+    if tag == 'ok' and v.startswith('reject') and kid == KF_ALT:
+        # a value under a Disjunct-typed entry that was examined before under an equal type
+        return any(n >= 2 for n in _values(case).values())
+    return False
+
+
+def nontrivial(case, obs):
+    tag, ctx, root = case.split(' ')
+    if tag == 'ok':
+        return ctx.count('=') >= 2
+    if tag.startswith('bad:'):
+        return True
+    if tag.startswith('sub:'):
+        return root != 'n'
+    return False
+
+
+def classify(case, obs):
+    tag = case.split(' ', 1)[0]
+    v = _verdict(obs).split(' ')[0]
+    if tag.startswith('bad:'):
+        m = _mut(tag).split('-')
+        return 'bad:%s:%s' % (m[0], v)
+    if tag.startswith('sub:'):
+        return 'sub:%s:%s' % (tag.split(':')[2], v)
+    return tag + ':' + v
+
+
+LEVEL_TEXT = ''
+LEVEL_NOTE = ''
+TECHNIQUE = ''
